@@ -839,6 +839,19 @@ theorem deCross_positionwise (dim : Nat) (mask : List Bool) (m b : List α) (h1 
   simp only [this, if_false]
   exact ⟨_, rfl, gated_length _ _ _, fun i => gated_positionwise mask b m i⟩
 
+
+/-- A frame in which no pair was crossed returns the parents. -/
+theorem frame_none_id {β : Type} : ∀ (ps : List β) (rs : List (OptPair β)), (∀ r ∈ rs, r = OptPair.none) →
+    frame ps rs = ps
+  | [], rs, _ => by cases rs <;> rfl
+  | [_], rs, _ => by cases rs <;> rfl
+  | _ :: _ :: _, [], _ => rfl
+  | p1 :: p2 :: rest, r :: rs, h => by
+    have hr : r = OptPair.none := h r (by simp)
+    subst hr
+    simp only [frame]
+    rw [frame_none_id rest rs (fun r hr => h r (by simp [hr]))]
+
 /-! ### legal witnesses of the permutation mutations -/
 
 
